@@ -175,16 +175,27 @@ func renderFormula(ast map[string]any, kinds []int, spell int) map[string]any {
 }
 
 func renderLogicProfile(fs []logicFormula, kinds []int, spell int) string {
-	names := []any{}
+	return renderLogicProfileLevels(fs, kinds, spell, nil)
+}
+
+func renderLogicProfileLevels(fs []logicFormula, kinds []int, spell int, level map[string]string) string {
+	names := map[string][]any{}
 	vals := map[string]any{}
 	for _, f := range fs {
-		names = append(names, f.FID)
+		l := level[f.FID]
+		if l == "" {
+			l = "violation"
+		}
+		names[l] = append(names[l], f.FID)
 		v := renderFormula(f.AST, kinds, spell)
 		v["targetClass"] = "ex.T"
 		v["message"] = "formula " + f.FID
 		vals[f.FID] = v
 	}
-	doc := map[string]any{"profile": "logic", "prefixes": map[string]any{"ex": exNS}, "violation": names, "validations": vals}
+	doc := map[string]any{"profile": "logic", "prefixes": map[string]any{"ex": exNS}, "validations": vals}
+	for l, ns := range names {
+		doc[l] = ns
+	}
 	b, err := yaml.Marshal(doc)
 	if err != nil {
 		panic(err)
